@@ -110,32 +110,62 @@ func main() {
 		if s, ok := v.Tags["search"]; ok {
 			kind = s
 		}
-		for i := 0; i < 2 && chk.FreshProcessReplay; i++ {
+		fresh := func(path []string) (bool, string) {
 			tmp, err := os.CreateTemp("", "verif-replay-*.json")
 			if err != nil {
 				fmt.Printf("HARNESS-ERROR property=%s %v\n", id, err)
 				os.Exit(2)
 			}
 			tmp.Close()
-			rf := engine.ReplayFile{Property: id, Kind: kind, Clause: v.Clause, Msg: v.Msg, Path: v.Path, Tags: v.Tags}
+			defer os.Remove(tmp.Name())
+			rf := engine.ReplayFile{Property: id, Kind: kind, Clause: v.Clause, Msg: v.Msg, Path: path, Tags: v.Tags}
 			if err := engine.WriteJSON(tmp.Name(), rf); err != nil {
 				fmt.Printf("HARNESS-ERROR property=%s %v\n", id, err)
 				os.Exit(2)
 			}
 			out, err := exec.Command(os.Args[0], id, "--replay", tmp.Name()).CombinedOutput()
-			os.Remove(tmp.Name())
 			ee, isExit := err.(*exec.ExitError)
 			if !isExit || ee.ExitCode() != 1 || !strings.Contains(string(out), "replay: ["+v.Clause+"]") {
-				fmt.Printf("HARNESS-ERROR property=%s violation %q did not reproduce in fresh process #%d (err=%v)\n%s\n", id, v.Clause, i+1, err, out)
-				os.Exit(2)
+				return false, fmt.Sprintf("err=%v\n%s", err, out)
 			}
+			return true, ""
 		}
-		for i := 0; i < 2 && !chk.FreshProcessReplay; i++ {
-			_, rv, err := chk.Replay(kind, v.Path)
-			if err != nil || rv == nil || rv.Clause != v.Clause {
-				fmt.Printf("HARNESS-ERROR property=%s violation %q did not reproduce on replay #%d (err=%v got=%v)\n", id, v.Clause, i+1, err, rv)
-				os.Exit(2)
+		same := func(path []string) (bool, string) {
+			if chk.FreshProcessReplay {
+				return fresh(path)
 			}
+			_, rv, err := chk.Replay(kind, path)
+			if err != nil || rv == nil || rv.Clause != v.Clause {
+				return false, fmt.Sprintf("err=%v got=%v", err, rv)
+			}
+			return true, ""
+		}
+		for i := 0; i < 2; i++ {
+			ok, why := same(v.Path)
+			if ok {
+				continue
+			}
+			// The path alone does not show it on a fresh world. If the world that found it can be
+			// re-run call for call (engine/history.go) and that shows it, twice, the violation is
+			// real and depends on state the code under test keeps in process memory.
+			if i == 0 && len(v.History) > 0 {
+				hp := append([]string{engine.HistoryMarker}, v.History...)
+				ok1, why1 := same(hp)
+				ok2, _ := same(hp)
+				if ok1 && ok2 {
+					fmt.Printf("NOTE property=%s the violation does not reproduce from its path on fresh keepers (%s); it reproduces from the complete history of the exploring world (%d engine calls), which the replay file holds: the code under test carries state in process memory\n", id, strings.SplitN(why, "\n", 2)[0], len(v.History))
+					if v.Tags == nil {
+						v.Tags = map[string]string{}
+					}
+					v.Tags["witness"] = "process-history"
+					v.Tags["path-inside-history"] = strings.Join(v.Path, " ; ")
+					v.Path = hp
+					break
+				}
+				why += " | history replay: " + why1
+			}
+			fmt.Printf("HARNESS-ERROR property=%s violation %q did not reproduce on replay #%d (%s)\n", id, v.Clause, i+1, why)
+			os.Exit(2)
 		}
 	}
 	os.Exit(engine.Finish(rc, res, chk.Level, verifDir()))
